@@ -813,7 +813,7 @@ class MaterialIndexer(Indexer):
                 if phase_indexer is other_phase_indexer:
                     data[:, left_index] = other_data[:, right_index]
                 elif phase_indexer.compatible_with(other_phase_indexer):
-                    for i, j in other: data[phase_indexer(i)] += j
+                    for i, j in other: data[phase_indexer(i), left_index] = j[right_index]
                 else:
                     self._expand_phases(other._phases)
                     phase_indexer = self._phase_indexer
